@@ -66,6 +66,14 @@ inductive WKind (s s' : St) (w w' : Worker) : Prop
   | retire (hpc : w.pc = .retire) (hpc' : w'.pc = .exited) (hh : w'.held = none) (hfl : w'.full = w.full)
       (hbf : w'.bf = w.bf) (hwq : s'.workQ = s.workQ) (hrq : s'.resQ = s.resQ) (hpq : s'.replQ = s.replQ ++ [some w.wid])
       (hlk : s'.lock = s.lock)
+  -- `Cfg.joinTimeout`: the wid is posted, `end()` is still to run
+  | retireT (hpc : w.pc = .retire) (hpc' : w'.pc = .ending) (hh : w'.held = w.held) (hfl : w'.full = w.full)
+      (hbf : w'.bf = w.bf) (hwq : s'.workQ = s.workQ) (hrq : s'.resQ = s.resQ) (hpq : s'.replQ = s.replQ ++ [some w.wid])
+      (hlk : s'.lock = s.lock)
+  -- `Cfg.joinTimeout`: `end()` and the exit of a retired worker
+  | ending (hpc : w.pc = .ending) (hpc' : w'.pc = .exited) (hh : w'.held = none) (hfl : w'.full = w.full)
+      (hbf : w'.bf = w.bf) (hwq : s'.workQ = s.workQ) (hrq : s'.resQ = s.resQ) (hpq : s'.replQ = s.replQ)
+      (hlk : s'.lock = s.lock)
 
 /-- a worker step: who moved, and how -/
 structure WStep (s s' : St) (wid : Nat) (w w' : Worker) : Prop where
@@ -203,8 +211,12 @@ theorem stepW_cases {s s' : St} {wid : Nat} (hf : NoFaults s.cfg) (hwc : WellCfg
         exact ⟨w, _, WStep_mk hg h5 (by constructor <;> rfl) rfl
           (.putBlock i hpc hheld h1 h2 h3 h4 (by simpa using hcap) rfl rfl rfl rfl)⟩
   case retire =>
+    split at h <;> simp only [Option.some.injEq] at h <;> subst h
+    · exact ⟨w, _, WStep_mk hg rfl (by constructor <;> rfl) rfl (.retireT hpc rfl rfl rfl rfl rfl rfl (by rw [hwid]; rfl) rfl)⟩
+    · exact ⟨w, _, WStep_mk hg rfl (by constructor <;> rfl) rfl (.retire hpc rfl rfl rfl rfl rfl rfl (by rw [hwid]; rfl) rfl)⟩
+  case ending =>
     simp only [Option.some.injEq] at h; subst h
-    exact ⟨w, _, WStep_mk hg rfl (by constructor <;> rfl) rfl (.retire hpc rfl rfl rfl rfl rfl rfl (by rw [hwid]; rfl) rfl)⟩
+    exact ⟨w, _, WStep_mk hg rfl (WSame_refl s) rfl (.ending hpc rfl rfl rfl rfl rfl rfl rfl rfl)⟩
 
 /-! ### counting over the worker list -/
 
@@ -234,9 +246,9 @@ theorem countP_upd {l : List Worker} (p : Worker → Bool) (hnd : (l.map (·.wid
       omega
 
 theorem liveCnt_upd {s s' : St} {w w' : Worker} (hL : LInv s) (hw : w ∈ s.workers) (h : s'.workers = upd w.wid w' s.workers) :
-    liveCnt s' + (if w.pc = .exited then 0 else 1) = liveCnt s + (if w'.pc = .exited then 0 else 1) := by
+    liveCnt s' + (if gone w.pc = true then 0 else 1) = liveCnt s + (if gone w'.pc = true then 0 else 1) := by
   unfold liveCnt; rw [h]
-  have := countP_upd (fun x => x.pc != .exited) hL.nodup (w' := w') hw
-  by_cases h1 : w.pc = .exited <;> by_cases h2 : w'.pc = .exited <;> simp [h1, h2] at this ⊢ <;> omega
+  have := countP_upd (fun x => !gone x.pc) hL.nodup (w' := w') hw
+  cases h1 : gone w.pc <;> cases h2 : gone w'.pc <;> simp [h1, h2] at this ⊢ <;> omega
 
 end WindVerif.Pool
